@@ -158,6 +158,9 @@ def strain_table(it, commons, func):
     def filler(name, atom):
         def contract(itp, args, kw):
             out = args[-1] if name in ('cfwx', 'cfwt', 'cfv') else args[-2]
+            if hasattr(out, 'entries'):
+                out.entries.append((P.atom('i'), ('i',), P.atom(atom)))
+                return None
             if not isinstance(out, K.LocalBuf):
                 raise CheckerError('%s: output is not a scratch buffer' % name)
             out.fill = lambda k: P.atom(atom)
